@@ -815,6 +815,11 @@ def run(ctx):
              "moved by more than 2*max(delta,max_intron_shift)+8, end moved by more than 2*minor_exon_extension, combinations - x 4 strategies (exact, precise, default, loose), through isoquant.py "
              "(read_assignments.tsv) and through the assigner's core in process (AlignmentInfo from a pysam record, polyA detection, profiles, assign_to_isoform); Coq decides positive / negative / "
              "not judged from the geometry alone and evaluates the clauses; non-trivial = judged")
+    # ---- the assigner's decision tree: assign_to_isoform = AssignerMatch.assign (float scores), C01's output spec with every isoform as candidate source
+    from props import c01_match
+    mstats = c01_match.run_match(ctx, quick); lap("assign_to_isoform")
+    ctx.notes.append("assign_to_isoform correspondence: %s" % json.dumps(mstats, default=str)[:800])
+
     stats = run_pipelines(ctx, quick); lap("pipelines")
     ctx.notes.append("pipeline verdicts: " + ", ".join("%s=%d" % kv for kv in sorted(stats.items())))
     stats2 = run_inprocess(ctx, quick); lap("in-process")
